@@ -63,7 +63,7 @@ def run(chk):
         chk.violation({"class": why, "threads": rows[s]["threads"], "allocs": rows[s]["allocs"]},
                       {"start": rows[s], "line": row, "run": rows[s:s + 30]})
     for row in pack_rows:
-        if row.get("bad"):
+        if row.get("bad") and not row.get("summary"):
             if any(w.startswith("tool:") for w in row["why"]):
                 raise vlib.ToolError(str(row))
             chk.violation({"class": "pack-unpack", "why": [w.split(":")[0] for w in row["why"]][:2]}, {"id": row["id"], "why": row["why"]})
